@@ -48,6 +48,15 @@ SIGS["C"] = {
 }
 
 
+SIGS["D"] = {
+    # never lifted (import positions only): a result whose arms are anonymous compound types
+    "wat": '(func (result (result (list u8) (error (tuple u32 u32)))))',
+    "core": "(result i32)",
+    "body": "i32.const 0",
+    "desc": "()->result<list<u8>,tuple<u32,u32>>",
+}
+
+
 def func(sig):
     return ("func", sig)
 
@@ -129,10 +138,12 @@ def wat_import(n, k):
 class WatBuilder:
     """Builds a component that imports PkgImports and exports PkgExports with real definitions."""
 
-    def __init__(self):
+    def __init__(self, share_types=False):
         self.lines = []
         self.n = 0
         self.core_done = False
+        self.share_types = share_types
+        self.sig_types = {}
 
     def fresh(self, p):
         self.n += 1
@@ -154,9 +165,17 @@ class WatBuilder:
             self.ensure_core()
             f = self.fresh("f")
             d = SIGS[k[1]]
-            self.lines.append(
-                f'(func {f} {d["wat"][6:-1]} (canon lift (core func $ci "{k[1]}")))'
-            )
+            if self.share_types:
+                # one type definition per signature: exports of one signature share a type id
+                if k[1] not in self.sig_types:
+                    t = self.fresh("ft")
+                    self.lines.append(f'(type {t} {d["wat"]})')
+                    self.sig_types[k[1]] = t
+                self.lines.append(f'(func {f} (type {self.sig_types[k[1]]}) (canon lift (core func $ci "{k[1]}")))')
+            else:
+                self.lines.append(
+                    f'(func {f} {d["wat"][6:-1]} (canon lift (core func $ci "{k[1]}")))'
+                )
             return ("func", f)
         if k[0] == "inst":
             parts = []
@@ -341,6 +360,29 @@ def lib_det():
     }
 
 
+def lib_dup():
+    """two semver-compatible versions (and a third, incompatible one) of one package; exports of one
+    instance that share a single function type; an import whose result type has anonymous compound arms"""
+    fD = func("D")
+    return {
+        "name": "dup",
+        "share_types": True,
+        "pkgs": {
+            "d1": {"name": "test:dup", "version": "1.0.0", "imports": [], "exports": [("x", fA)]},
+            "d2": {"name": "test:dup", "version": "1.1.0", "imports": [], "exports": [("x", fA), ("y", fA)]},
+            # (different bytes from d1: embedded components are recognised by their content)
+            "d3": {"name": "test:dup", "version": "2.0.0", "imports": [], "exports": [("x", fB)]},
+            "dc": {"name": "test:user", "version": None, "imports": [("a", fA), ("b", fA), ("r", fD)], "exports": [("o", fA)]},
+        },
+        "kinds": {"fA": fA},
+        "import_names": ["k"],
+        "export_names": ["e1", "e2"],
+        "def_names": [],
+        "valid_names": ["k", "e1", "e2"],
+        "deftypes": {},
+    }
+
+
 def lib_wac():
     """C04: packages whose import/export names mix plain names, interface paths with and without
     versions, and ambiguous / unambiguous last segments (see lib/universe_wac.py for the programs)"""
@@ -379,7 +421,7 @@ def lib_wac():
     }
 
 
-LIBS = {"core": lib_core, "ver": lib_ver, "shape": lib_shape, "plug": lib_plug, "det": lib_det, "wac": lib_wac}
+LIBS = {"core": lib_core, "ver": lib_ver, "shape": lib_shape, "plug": lib_plug, "det": lib_det, "wac": lib_wac, "dup": lib_dup}
 
 
 def emit(lib):
@@ -420,7 +462,7 @@ def emit(lib):
             k: {
                 "name": v["name"],
                 "version": v["version"],
-                "wat": WatBuilder().build(v["imports"], v["exports"]),
+                "wat": WatBuilder(share_types=lib.get("share_types", False)).build(v["imports"], v["exports"]),
                 "imports": [[n, kind_json(kk)] for n, kk in v["imports"]],
                 "exports": [[n, kind_json(kk)] for n, kk in v["exports"]],
             }
